@@ -42,11 +42,18 @@ def mosaic_cases(draw, tier, max_size=900, max_inputs=6, allow_inf=False):
             border = draw(st.sampled_from([1, 5, 20]))
         rects.append([x0, y0, w, h, border])
     rot = draw(st.sampled_from([0.0, 0.0, 90.0, -90.0, 180.0, 36.87, 12.5]))
+    # undefined regions INSIDE an input's data area (masked stars, non-rectangular footprints): [input, fx, fy, fw, fh] in
+    # fractions of the input's size; another input may define those pixels
+    holes = []
+    if n >= 2 and draw(st.integers(0, 2)) == 0:
+        for _ in range(draw(st.integers(1, 3))):
+            holes.append([draw(st.integers(0, n - 1)), draw(st.floats(0.05, 0.8)), draw(st.floats(0.05, 0.8)), draw(st.floats(0.02, 0.5)), draw(st.floats(0.02, 0.5))])
     inf = []
     if allow_inf and draw(st.integers(0, 3)) == 0:
         inf = [[draw(st.floats(0, 1)), draw(st.floats(0, 1)), draw(st.sampled_from([1, 1, -1]))] for _ in range(draw(st.integers(1, 4)))]
     return {
         "inf": inf,
+        "holes": holes,
         "W": W, "H": H, "rects": rects,
         "order": draw(st.permutations(list(range(n)))),
         "bottom_up": draw(st.booleans()),
@@ -135,6 +142,10 @@ def write_inputs(case, d):
                 data[-b:, :] = np.nan
                 data[:, :b] = np.nan
                 data[:, -b:] = np.nan
+        for hi, fx, fy, fw, fh in case.get("holes", []):
+            if hi == i:
+                hx0, hy0 = int(fx * w), int(fy * h)
+                data[hy0 : hy0 + max(1, int(fh * h)), hx0 : hx0 + max(1, int(fw * w))] = np.nan
         sub = exp[y0 - by0 : y0 - by0 + h, x0 - bx0 : x0 - bx0 + w]
         m = ~np.isnan(data)
         sub[m] = data[m]
